@@ -28,14 +28,21 @@ Proof. exact clip_spec. Qed.
 
 (* ---- allocations ------------------------------------------------------------------------------ *)
 (* Every allocation one rfbProcessClientMessage call makes on behalf of the message - in any protocol
-   state, for any byte stream, segmentation and timing - is at most 1 MiB (2 GiB when the application
-   permits file transfer) or a frame buffer of the configured screen. *)
+   state, for any byte stream, segmentation and timing - is at most [alloc_bound c]: the larger of the message
+   limits the source has (regenerated constants: cut-text limit, extended-clipboard record limit, INT_MAX for a
+   permitted file transfer), the screens array and a frame buffer of the configured screen ... *)
 Theorem C04_alloc_bound : forall o_corr_f o_scale o_inflate o_pw c s r v r' eff n,
   cfg_ok c -> reader_bytes_ok r ->
   process_message o_corr_f o_scale o_inflate o_pw c s r = (v, r', eff) ->
   In (Alloc n) eff ->
-  n <= (if cf_ft c then 2147483648 else 1048576) + fb_bytes c.
+  n <= alloc_bound c.
 Proof. exact alloc_bound_final. Qed.
+(* ... and that is a FIXED bound: 1 MiB of text (+ 1 for the NUL of an extended-clipboard record; 2 GiB when
+   the application permits file transfer) or a frame buffer.  A limit raised in the source breaks this proof. *)
+Theorem C04_alloc_bound_fixed : forall c, cfg_ok c ->
+  alloc_bound c <= (if cf_ft c then 2147483648 else 1048577) + fb_bytes c /\
+  c04_cut_text_limit <= 2 ^ 20 /\ c04_ext_clip_limit <= 2 ^ 20 + 1.
+Proof. exact alloc_bound_fixed. Qed.
 Example C04_alloc_bound_nonvacuous :
   let c := cfg_w 4 8 false false in
   cfg_ok c /\
